@@ -98,8 +98,12 @@ def run(ctx):
                 why.append("response is not a well-formed client error: %s %s" % (cls, unhex(msg)))
             if cl > max_up and cls != "too-large":
                 why.append("ContentLength %d > MaxUploadSize %d but the request was not rejected" % (cl, max_up))
-            if cls == "exec" and sum(sizes[2:]) > max_up:
-                why.append("uploads of %d bytes accepted with MaxUploadSize %d" % (sum(sizes[2:]), max_up))
+            tail = int(f[4])
+            if cls in ("exec", "gql-error") and tail > 0:
+                hdrs = [int(p.split(":")[3]) for p in f[10].split(";") if p != "-"]
+                consumed = sum(hdrs) + sum(sizes) + tail
+                if consumed > max_up:
+                    why.append("a body of %d bytes was parsed to the end with MaxUploadSize %d" % (consumed, max_up))
             ups = {}
             if readers != "-":
                 for x in readers.split(","):
